@@ -18,7 +18,7 @@ import (
 //
 //   .fresh      the object was created in the same function (`x := &T{…}` / `T{…}` / `new(T)`; `x.f = …` afterwards):
 //               construction, not mutation of a value somebody already holds
-//   .lazyFill   `x.f = …` inside `if x.f == nil { … }`                    (a cache filled once)
+//   .lazyFill   `x.f = …` inside `if x.f == nil { … }` (or `== ""` for a string)   (a cache filled once)
 //   .reset      `x.f = nil`
 //   .elem       a write INTO the slice / map a field holds: `x.f[i] = …`, `copy(x.f, …)`, `delete(x.f, …)`
 //   .write      any other assignment (`=`, `+=`, `++` …)
@@ -315,7 +315,7 @@ func (e *fwEnv) walk(fn string, n ast.Node, guards []string) {
 		}
 		e.exprs(fn, s.Cond, guards)
 		g := guards
-		if be, ok := s.Cond.(*ast.BinaryExpr); ok && be.Op == token.EQL && src(be.Y) == "nil" {
+		if be, ok := s.Cond.(*ast.BinaryExpr); ok && be.Op == token.EQL && (src(be.Y) == "nil" || src(be.Y) == "``" || src(be.Y) == `""`) {
 			g = append(append([]string{}, guards...), src(be.X))
 		}
 		e.walk(fn, s.Body, g)
